@@ -1427,6 +1427,7 @@ def do_load(w, op, p):
         model.eval()
     else:
         model = build_model(rec["arch"], rec["dtype"], op.get("init", 1), rec["wcls"])
+    pre_param_ids = {k: id(v) for k, v in model.named_parameters() if type(v.data) is torch.Tensor} if into is not None else {}
     try:
         if into is not None:
             model.load_state_dict(sd, assign=assign)
@@ -1473,7 +1474,17 @@ def do_load(w, op, p):
         return "error:" + type(e).__name__
     if into is not None:
         w.deps.pop(into.id, None)
+        if not assign:
+            # load_state_dict copies into the parameters it finds (torch's contract without assign=True): an optimizer
+            # created before a checkpoint is resumed keeps tracking them (C11: its steps must reach the next forward)
+            for k, v in model.named_parameters():
+                if type(v.data) is torch.Tensor and k in pre_param_ids and id(v) != pre_param_ids[k]:
+                    w.judged("C11")
+                    w.violate("C11", "freshness", "load", {"issue": "float_parameter_replaced_by_load", "src_frozen": rec["frozen"]}, f"{k}: load_state_dict without assign=True replaced the float Parameter object (an optimizer built earlier no longer reaches it)", p)
+                    break
     n = Dep(op["new"] if into is None else into.id)
+    if into is not None:
+        n.__dict__["expect_rg"] = dict(into.__dict__.get("expect_rg", {}))  # the flags live on the Parameters, which stay
     n.arch, n.in_shape, n.dtype, n.wcls, n.init = rec["arch"], rec["in_shape"], rec["dtype"], rec["wcls"], op.get("init", 1)
     n.model = model
     n.model.eval()
